@@ -18,7 +18,7 @@ META = {
                    "report paths of its specification (the construct's own location, not that of an operand); which nodes match and when is decided by C05-C09.",
     "assumptions": ["Loc::start() is the byte offset of the first byte of the construct (parser contract)",
                     "Iterator::take/filter/count and str::bytes semantics (std contract)"],
-    "floors": {"R02.plumb": 9, "R02.range": 1, "R02.canon": 1, "R02.where": 20},
+    "floors": {"R02.plumb": 9, "R02.range": 1, "R02.canon": 1, "R02.where": 23},
 }
 
 
@@ -87,6 +87,28 @@ def where_obligations(crate, disp):
             obs.append(Ob("R02.where", body.path, "%s hands the flagged construct's own location to the line lookup" % name, not extra and bool(got),
                           expected="locations relative to the matched node: %s" % sorted(want), found=extra or sorted(got),
                           example="a require( whose && condition starts on the next line"))
+    # detectors that report locations recorded in a helper's table (name -> location): the recorded location is the specified one
+    OPT = "analyzer::optimizations::"
+    for fnp, spec_name in ((OPT + "memory_to_calldata::get_function_definition_memory_args", "memory_args"),
+                           (OPT + "immutable_variables::get_storage_variables_assigned_in_constructor", "constructor_assigned"),
+                           ("analyzer::utils::get_32_byte_storage_variables", "storage_table")):
+        hb = crate.bodies.get(fnp)
+        if hb is None or spec_name not in spec:
+            obs.append(Ob("R02.where", fnp, "%s: helper present" % spec_name, False))
+            continue
+        want = set(_relative(ps) for (ps, _must, _may, _ln) in spec[spec_name].reports)
+        try:
+            reps = sm.reports(hb)
+        except summary.Unanalysable as e:
+            obs.append(Ob("R02.where", fnp, "%s: recorded locations extractable" % spec_name, False, found=str(e)))
+            continue
+        got = set()
+        for (t, _f, _s) in reps:
+            got |= speccmp_alt(_relative(show(t)))
+        extra = sorted(got - want)
+        obs.append(Ob("R02.where", fnp, "%s records the location of the construct the detector is about" % spec_name, not extra and bool(got),
+                      expected="recorded (name, location) pairs: %s" % sorted(want), found=extra or sorted(got),
+                      example="a memory parameter whose type and `memory` keyword are on different lines"))
     return obs
 
 
